@@ -36,7 +36,7 @@ def run(ctx):
         scen.append(dict(kind="wl", wl=dict(words=[wlfam.o(w) for w in big], nolist=0, len=4, cap=cap, sep="char", sepChar=wlfam.o("-")), maxTrials=0, failRateOne=0,
                          mode="paths", paths=0, maxLeaves=0, tag="big-list-one-fixed-word", reps=400 if quick else 4000))
     # a word repeated as often as a narrow counter can count, next to its capitalised twin (a twin that survives costs the bonus)
-    for k in (255, 256, 257, 512) + (() if quick else (65535, 65536)):
+    for k in (255, 256, 257, 512) + (() if quick else (1023, 1024, 4096)):      # (65 536 is in C10's thorough tier: one construction there, twelve here)
         for ws in (["polish"] * k + ["Polish", "one"], ["Polish"] * k + ["one", "polish"]):
             scen.append(dict(kind="wl", wl=dict(words=[wlfam.o(w) for w in ws], nolist=0, len=3, cap=rng.choice(["random", "one"]), sep="char", sepChar=[]),
                              maxTrials=0, failRateOne=0, mode="paths", paths=0, maxLeaves=0, tag="repeated-word-with-twin", reps=12))
